@@ -333,7 +333,7 @@ func labC12(e labEnv) {
 		ncfg = 12
 	}
 	tags := map[string]int{}
-	for _, c := range tcpBoundaryCfgs(r, 8)[:ncfg+0] {
+	for _, c := range tcpBoundaryCfgs(r, max(8, ncfg))[:ncfg] {
 		p, err := packets.VerifClassicBPF(c.spec())
 		must(err)
 		vmT := mustVM(p)
